@@ -289,13 +289,20 @@ func vfH_conc_fault() {
 	vfTimersFire(false)
 	isServer := vfChoose(2) == 1
 	tc := vfNewConn(nil)
-	tc.wfailAt = vfChoose(2 + 2*vfParam("tier", 0))
+	tc.wfailAt = vfChoose(2 + 4*vfParam("tier", 0))
 	tc.wfault = 1 + vfChoose(3)
 	c := newConn(tc, isServer, 0, 8, nil, nil, nil)
 	var wErr, pErr error
 	zero := vfChoose(2) == 1
+	wp, n := vfWPWriteMessage, 3
+	if vfParam("tier", 0) >= 1 {
+		// thorough: also a message of several frames, written in pieces
+		wp = vfPick([]int{vfWPWriteMessage, vfWPWriterSplit})
+		n = vfPick([]int{3, 2*(8+14) + 1})
+	}
+	data := vfBytes(n)
 	vfGo(func() {
-		wErr = c.WriteMessage(BinaryMessage, []byte("abc"))
+		wErr = vfDoWrite(c, wp, BinaryMessage, data, 1)
 	})
 	vfGo(func() {
 		d := time.Time{}
@@ -305,7 +312,14 @@ func vfH_conc_fault() {
 		pErr = c.WriteControl(PingMessage, []byte("p"), d)
 	})
 	vfJoin()
-	vfAssert(tc.wfailed, "fault-write-injected")
+	if !tc.wfailed {
+		// the program has fewer write-side operations than the fault index (short
+		// messages in the thorough tier): both calls succeed
+		vfAssert(vfParam("tier", 0) >= 1, "fault-write-injected")
+		vfAssert(wErr == nil, "write-accepted")
+		vfAssert(pErr == nil, "write-accepted")
+		return
+	}
 	vfAssert(tc.afterFail == 0, "c10-nothing-written-after-failed-write")
 	vfAssert(wErr != nil || pErr != nil, "c10-failed-step-reports-error")
 	vfAssert(c.WriteMessage(TextMessage, []byte("x")) != nil, "c10-later-write-fails")
